@@ -87,6 +87,14 @@ class Ctx(object):
             self._cg = CallGraph(self.idx, self.wiring, self.cf)
         return self._cg
 
+    @property
+    def cg_precise(self):
+        """Call graph of resolved edges only (no by-name fallback)."""
+        if getattr(self, '_cgp', None) is None:
+            from .resolve import CallGraph
+            self._cgp = CallGraph(self.idx, self.wiring, self.cf, fallback=False)
+        return self._cgp
+
     # -- small shared helpers ----------------------------------------------
 
     @staticmethod
